@@ -64,8 +64,7 @@ func (d *Deduplicator) NotifyDKGStarted(
 	cacheKey := newDKGSeed.Text(16)
 	// If the key is not in the cache, that means the seed was not handled
 	// yet and the client should proceed with the execution.
-	if !d.dkgSeedCache.Has(cacheKey) {
-		d.dkgSeedCache.Add(cacheKey)
+	if d.dkgSeedCache.Add(cacheKey) {
 		return true
 	}
 
